@@ -592,7 +592,66 @@ pub fn c18_files(thorough: bool) -> Vec<String> {
     v
 }
 
+/// C18 addendum: several files in one invocation — every differing file gets its own diff / record / summary line, also when
+/// two different files have spellings that look alike (`a.lua` and `vendor/../a.lua` with `vendor` a link to another directory)
+fn c18_multi(stats: &mut Stats) -> Vec<Failure> {
+    let mut scs = vec![];
+    let unf1 = "local   x  =  1\n";
+    let unf2 = "local   y  =  2\nlocal z   = 3\n";
+    let fmt1 = "local x = 1\n";
+    for (first, second) in [(unf1, unf2), (fmt1, unf2), (unf1, fmt1), (fmt1, fmt1)] {
+        for args in [vec!["a.lua", "vendor/../a.lua"], vec!["vendor/../a.lua", "a.lua"], vec!["a.lua", "../shared/a.lua"], vec![".", "vendor/../a.lua"]] {
+            for fmt in ["Unified", "Json", "Summary", "Standard"] {
+                let mut t = Tree::default();
+                t.add("proj/a.lua", first.as_bytes());
+                t.add("shared/a.lua", second.as_bytes());
+                t.add("shared/lua/", b"");
+                t.link("proj/vendor", "../shared/lua");
+                let mut argv: Vec<String> = vec!["--check".into(), "--color".into(), "Never".into(), "--output-format".into(), fmt.into()];
+                argv.extend(args.iter().map(|x| x.to_string()));
+                scs.push(Scenario {
+                    desc: format!("C18 multi first={:?} second={:?} args={:?} format={}", first, second, args, fmt),
+                    tree: t,
+                    run: Run { argv, cwd: "proj".into(), ..Run::default() },
+                });
+            }
+        }
+    }
+    run_all(scs, "E2-C18", stats, |s, o| {
+        let mut f = vec![];
+        let first_differs = s.desc.contains("first=\"local   x");
+        let second_differs = s.desc.contains("second=\"local   y");
+        let n = first_differs as usize + second_differs as usize;
+        let fmt = s.run.argv[4].as_str();
+        let stdout = String::from_utf8_lossy(&o.stdout).to_string();
+        let reported = match fmt {
+            "Standard" => stdout.lines().filter(|l| l.starts_with("Diff in ")).count(),
+            "Unified" => stdout.lines().filter(|l| l.starts_with("--- ")).count(),
+            "Json" => stdout.lines().filter(|l| serde_json::from_str::<serde_json::Value>(l).map(|v| v.get("mismatches").is_some()).unwrap_or(false)).count(),
+            _ => stdout.lines().filter(|l| l.trim_end().ends_with("a.lua")).count(),
+        };
+        if reported != n {
+            f.push(("diff-set".into(), format!("{} files are reported as differing, {} differ", reported, n)));
+        }
+        let want = if n > 0 { 1 } else { 0 };
+        if o.code != want {
+            f.push(("exit-status".into(), format!("exit {} with {} differing files", o.code, n)));
+        }
+        if o.before != o.after {
+            f.push(("check-wrote".into(), "the tree changed in --check mode".into()));
+        }
+        f
+    })
+}
+
 pub fn c18(thorough: bool, stats: &mut Stats) -> Vec<Failure> {
+    let mut multi = c18_multi(stats);
+    let mut all = c18_single(thorough, stats);
+    all.append(&mut multi);
+    all
+}
+
+fn c18_single(thorough: bool, stats: &mut Stats) -> Vec<Failure> {
     let mut scs = vec![];
     let cfg = Cfg::default();
     for f in c18_files(thorough) {
@@ -1369,11 +1428,26 @@ pub fn c15_sections(stats: &mut Stats) -> Vec<Failure> {
 }
 
 // ======================================================================================================== C16
-pub const C16_FILES: &[&str] = &["a.lua", "b.luau", "c.txt", ".h.lua", "s/d.lua", "s/.g/e.lua", "v/v.lua", "s/t/u.lua"];
+pub const C16_FILES: &[&str] = &["a.lua", "b.luau", "c.txt", ".h.lua", "s/d.lua", "s/.g/e.lua", "v/v.lua", "s/t/u.lua", "s/a.lua"];
+/// symbolic links in the tree: a link to a file (selected like a file, but it IS its target: processed once), and a link to a
+/// directory (not followed by the traversal; used for the spelling `lt/../a.lua`, which the OS resolves to s/a.lua)
+pub const C16_LINKS: &[(&str, &str)] = &[("s/ln.lua", "../a.lua"), ("lt", "s/t")];
 pub const C16_ARGS: &[&str] = &[".", "s", "a.lua", "./a.lua", "c.txt", "v/v.lua", "s/d.lua", ".h.lua", "s/t"];
+/// further spellings, used alone and next to a few of the above: through links, and absolute
+pub const C16_ARGS_EXTRA: &[&str] = &["s/ln.lua", "lt/../a.lua", "$ROOT", "$ROOT/s", "$ROOT/a.lua"];
 /// ignore pattern lists (gitignore syntax); the model below implements exactly these
 pub const C16_IGNORES: &[&str] = &["v/\n", "*.lua\n", "*.lua\n!a.lua\n", "s/d.lua\n", "d.lua\n"];
 const UNF: &str = "local   x  =  1\n";
+
+/// the file a path (as the traversal or the command line spells it, relative to the working directory) denotes
+fn c16_canon(p: &str) -> String {
+    let p = p.strip_prefix("./").unwrap_or(p);
+    match p {
+        "s/ln.lua" => "a.lua".to_string(),
+        "lt/../a.lua" => "s/a.lua".to_string(),
+        _ => p.to_string(),
+    }
+}
 
 /// is `file` (path relative to cwd) excluded by the ignore file at `loc` ("" = cwd, "s" = s/) with pattern list `pi`?
 fn c16_ignored(file: &str, loc: &str, pi: usize) -> bool {
@@ -1403,7 +1477,9 @@ fn c16_glob_match(file: &str, globs: usize, luau: bool) -> bool {
         1 => base.ends_with(".txt"),
         2 => base.ends_with(".lua") && base != "d.lua",
         // only a negated pattern: everything but what it names
-        _ => base != "d.lua",
+        3 => base != "d.lua",
+        // a pattern with an inner `/` is anchored at the working directory: s/*.lua
+        _ => file.strip_prefix("s/").map_or(false, |r| !r.contains('/') && r.ends_with(".lua")),
     }
 }
 
@@ -1417,10 +1493,17 @@ fn c16_hidden_below(file: &str, root: &str) -> bool {
 fn c16_model(args: &[&str], ign: Option<(&str, usize)>, globs: usize, respect: bool, allow_hidden: bool) -> std::collections::BTreeSet<String> {
     let mut set = std::collections::BTreeSet::new();
     for a in args {
-        let canon = a.strip_prefix("./").unwrap_or(a);
-        if *a == "." || *a == "s" || *a == "s/t" {
-            for f in C16_FILES {
-                let under = *a == "." || f.starts_with(&format!("{}/", a));
+        // an absolute spelling of the working directory or of something below it selects what the relative one selects
+        let a: &str = match *a {
+            "$ROOT" => ".",
+            x => x.strip_prefix("$ROOT/").unwrap_or(x),
+        };
+        if a == "." || a == "s" || a == "s/t" {
+            // what the traversal meets: the files, and the link to a file (the link to a directory is not followed)
+            let mut cands: Vec<&str> = C16_FILES.to_vec();
+            cands.push("s/ln.lua");
+            for f in cands {
+                let under = a == "." || f.starts_with(&format!("{}/", a));
                 if !under {
                     continue;
                 }
@@ -1435,21 +1518,22 @@ fn c16_model(args: &[&str], ign: Option<(&str, usize)>, globs: usize, respect: b
                         continue;
                     }
                 }
-                set.insert(f.to_string());
+                set.insert(c16_canon(f));
             }
         } else {
             // a file named explicitly is formatted regardless, unless --respect-ignores is given
+            let shown = a.strip_prefix("./").unwrap_or(a);
             if respect {
-                if !c16_glob_match(canon, globs, true) {
+                if !c16_glob_match(shown, globs, true) {
                     continue;
                 }
                 if let Some((loc, pi)) = ign {
-                    if c16_ignored(canon, loc, pi) {
+                    if c16_ignored(shown, loc, pi) {
                         continue;
                     }
                 }
             }
-            set.insert(canon.to_string());
+            set.insert(c16_canon(shown));
         }
     }
     set
@@ -1463,12 +1547,24 @@ pub fn c16(thorough: bool, stats: &mut Stats) -> Vec<Failure> {
             arglists.push(vec![a, b]);
         }
     }
+    for x in C16_ARGS_EXTRA {
+        arglists.push(vec![x]);
+        for y in [".", "s", "a.lua", "s/d.lua"] {
+            arglists.push(vec![x, y]);
+            arglists.push(vec![y, x]);
+        }
+    }
     if thorough {
         for a in C16_ARGS {
             for b in C16_ARGS {
                 for c in [".", "s", "a.lua", "s/d.lua"] {
                     arglists.push(vec![a, b, c]);
                 }
+            }
+        }
+        for x in C16_ARGS_EXTRA {
+            for y in C16_ARGS_EXTRA {
+                arglists.push(vec![x, y]);
             }
         }
     }
@@ -1481,8 +1577,9 @@ pub fn c16(thorough: bool, stats: &mut Stats) -> Vec<Failure> {
     let mut metas = vec![];
     let mut scs = vec![];
     for args in &arglists {
+        let extra = args.iter().any(|a| C16_ARGS_EXTRA.contains(a));
         for ign in &igns {
-            for globs in 0..4usize {
+            for globs in 0..5usize {
                 for respect in [false, true] {
                     for hidden in [false, true] {
                         for mode in ["write", "summary"] {
@@ -1494,9 +1591,25 @@ pub fn c16(thorough: bool, stats: &mut Stats) -> Vec<Failure> {
                             if globs == 3 && hidden && ign.is_some() {
                                 continue;
                             }
+                            // how the ignore file found through `lt/..` and a glob see that spelling is not worth a model
+                            if respect && args.contains(&"lt/../a.lua") {
+                                continue;
+                            }
+                            // quick tier, lists of two arguments: a subset of the ignore lists and glob lists (single arguments
+                            // take them all)
+                            if !thorough && args.len() > 1 && (!matches!(ign, None | Some(("", 1)) | Some(("", 2)) | Some(("s", 1)) | Some(("s", 4))) || !matches!(globs, 0 | 2 | 4)) {
+                                continue;
+                            }
+                            // the extra spellings: one ignore list per location and no hidden variants in the quick tier
+                            if !thorough && extra && (hidden || matches!(ign, Some((_, pi)) if *pi != 1 && *pi != 2)) {
+                                continue;
+                            }
                             let mut t = Tree::default();
                             for f in C16_FILES {
                                 t.add(f, UNF.as_bytes());
+                            }
+                            for (l, target) in C16_LINKS {
+                                t.link(l, target);
                             }
                             if let Some((loc, pi)) = ign {
                                 let p = if loc.is_empty() { ".styluaignore".to_string() } else { format!("{}/.styluaignore", loc) };
@@ -1510,6 +1623,7 @@ pub fn c16(thorough: bool, stats: &mut Stats) -> Vec<Failure> {
                                 1 => argv.extend(["-g".into(), "**/*.txt".into()]),
                                 2 => argv.extend(["-g".into(), "**/*.lua".into(), "-g".into(), "!**/d.lua".into()]),
                                 3 => argv.extend(["-g".into(), "!**/d.lua".into()]),
+                                4 => argv.extend(["-g".into(), "s/*.lua".into()]),
                                 _ => {}
                             }
                             if respect {
@@ -1546,16 +1660,18 @@ pub fn c16(thorough: bool, stats: &mut Stats) -> Vec<Failure> {
                 f.push(("wrong-selection".into(), format!("formatted but not selected: {:?}; selected but not formatted: {:?}", extra, missing)));
             }
             for (k, v) in &o.after {
-                if !C16_FILES.contains(&k.as_str()) && o.before.get(k) != Some(v) {
+                // (a link shows the bytes of its target)
+                if !C16_FILES.contains(&k.as_str()) && !C16_LINKS.iter().any(|(l, _)| l == k) && o.before.get(k) != Some(v) {
                     f.push(("other-file-touched".into(), format!("{} changed", k)));
                 }
             }
         } else {
+            let rootp = format!("{}/", o.root.to_string_lossy());
             let listed: Vec<String> = String::from_utf8_lossy(&o.stdout)
                 .lines()
                 .map(|l| l.trim().to_string())
-                .filter(|l| C16_FILES.iter().any(|p| l.ends_with(p)) && !l.contains(' '))
-                .map(|l| l.strip_prefix("./").unwrap_or(&l).to_string())
+                .filter(|l| !l.contains(' ') && (l.ends_with(".lua") || l.ends_with(".luau") || l.ends_with(".txt")))
+                .map(|l| c16_canon(l.strip_prefix(&rootp).unwrap_or(&l)))
                 .collect();
             let mut sorted = listed.clone();
             sorted.sort();
